@@ -14,6 +14,7 @@
 #include <djinterop/engine/v2/track_data_blob.hpp>
 
 #include "djinterop/engine/encode_decode_utils.hpp"
+#include "djinterop/engine/v1/engine_storage.hpp"
 #include "djinterop/engine/v1/performance_data_format.hpp"
 
 #include "djv.hpp"
@@ -86,6 +87,37 @@ DJV_CMD(enc, "enc")
     if (k == "v1.ovw") { auto v = rd_v1_ovw(c); c.done(); return payload_and_blob(v.encode(), true); }
     if (k == "v1.hires") { auto v = rd_v1_hires(c); c.done(); return payload_and_blob(v.encode(), true); }
     if (k == "v1.track") { auto v = rd_v1_track(c); c.done(); return payload_and_blob(v.encode(), true); }
+    throw bad_command{"kind"};
+}
+
+// v1col <kind> <value...>: the single-column write path of the 1.x storage (the one behind every 1.x blob setter:
+// encode, decode again, refuse if the value did not survive, write) followed by the single-column read, on a
+// temporary 1.x library: "<value as given> | <value read back>".
+template <class T>
+static std::string v1col_run(const T& v, const char* column)
+{
+    auto st = ev1::engine_storage::create_temporary(djinterop::engine::engine_schema::schema_1_18_0_os);
+    // the PerformanceData row of a track as create_track leaves it: eight empty cue and loop slots
+    ev1::quick_cues_data q0;
+    q0.hot_cues.resize(8);
+    ev1::loops_data l0;
+    l0.loops.resize(8);
+    st->set_performance_data(1, 1, 0, ev1::track_data{}, ev1::high_res_waveform_data{}, ev1::overview_waveform_data{},
+                             ev1::beat_data{}, q0, l0, 0, 0, 0);
+    st->template set_performance_data_column<T>(1, column, v);
+    auto r = st->template get_performance_data_column<T>(1, column);
+    return wr(v) + " | " + wr(r);
+}
+DJV_CMD(v1col, "v1col")
+{
+    cursor c{a, 2};
+    const std::string& k = a.at(1);
+    if (k == "v1.beat") { auto v = rd_v1_beat(c); c.done(); return v1col_run(v, "beatData"); }
+    if (k == "v1.cues") { auto v = rd_v1_cues(c); c.done(); return v1col_run(v, "quickCues"); }
+    if (k == "v1.loops") { auto v = rd_v1_loops(c); c.done(); return v1col_run(v, "loops"); }
+    if (k == "v1.ovw") { auto v = rd_v1_ovw(c); c.done(); return v1col_run(v, "overviewWaveFormData"); }
+    if (k == "v1.hires") { auto v = rd_v1_hires(c); c.done(); return v1col_run(v, "highResolutionWaveFormData"); }
+    if (k == "v1.track") { auto v = rd_v1_track(c); c.done(); return v1col_run(v, "trackData"); }
     throw bad_command{"kind"};
 }
 
